@@ -13,7 +13,7 @@ template <> struct ftype<3> { using type = cb::affine<cb::linear<cb::strided<cv:
 template <> struct ftype<2> { using type = cb::affine<cb::linear<cb::strided<cv::size2, cb::array<cv::float1>>>>; using other = cb::affine<cb::nearest_neighbour<cb::morton<cv::size2, cb::array<cv::float1>, false>>>; };
 
 enum { EMPTY = 0, LIVE = 1, MOVED = 2 };
-enum { OP_COPY_CONSTRUCT, OP_MOVE_CONSTRUCT, OP_COPY_ASSIGN, OP_MOVE_ASSIGN, OP_WRITE, OP_DESTROY, OP_CONVERT, OP_DUMPLOAD, OP_LOADFAIL, OP_CREATE, NOPS };
+enum { OP_COPY_CONSTRUCT, OP_MOVE_CONSTRUCT, OP_COPY_ASSIGN, OP_MOVE_ASSIGN, OP_WRITE, OP_DESTROY, OP_CONVERT, OP_DUMPLOAD, OP_LOADFAIL, OP_CONVERT_MOVE, OP_CREATE, NOPS };
 
 // the layout layer (integer coordinates, array storage) of a stack
 template <class O> static auto & layout_of_data(O & o)
@@ -110,7 +110,16 @@ template <class B, class Other> struct world {
             for (size_t j = i + 1; j < NS; j++)
                 if (state[j] == LIVE) vf_assert(buffer(i) != buffer(j), base + 3);
         }
-        vf_assert(vf_heap_live() == live0 + nlive, base + 4);
+        // a moved-from slot is valid but unspecified: it may have kept storage (the converting "move" of the pinned tree copies);
+        // whatever it holds is its own
+        size_t kept = 0;
+        for (size_t i = 0; i < NS; i++) {
+            if (state[i] != MOVED || buffer(i) == nullptr) continue;
+            kept++;
+            for (size_t j = 0; j < NS; j++)
+                if (j != i && state[j] != EMPTY && buffer(j) != nullptr) vf_assert(buffer(i) != buffer(j), base + 3);
+        }
+        vf_assert(vf_heap_live() == live0 + nlive + kept, base + 4);
     }
 
     void apply(size_t op, size_t a, size_t b)
@@ -165,6 +174,13 @@ template <class B, class Other> struct world {
             copy_model(a, b); state[a] = LIVE;
             break;
         }
+        case OP_CONVERT_MOVE: {
+            // slot a := slot b through the other representation by MOVING conversions; b is left moved-from
+            vf_assume(state[a] == EMPTY && state[b] == LIVE);
+            convert_move(a, b);
+            copy_model(a, b); state[a] = LIVE; state[b] = MOVED;
+            break;
+        }
         case OP_DUMPLOAD: {
             vf_assume(state[a] == EMPTY && state[b] == LIVE);
             std::ostream * os = vf_ostream();
@@ -202,6 +218,11 @@ template <class B, class Other> struct world {
         new (mem[a]) F(tmp);               // ... and back
     }
     void convert(size_t a, size_t b) { convert_via<Other>(a, b); }
+    void convert_move(size_t a, size_t b)
+    {
+        field<Other> tmp(std::move(at(b)));
+        new (mem[a]) F(std::move(tmp));
+    }
 
     void teardown()
     {
